@@ -51,6 +51,7 @@ type partial struct {
 	TraceClass  int64            `json:"trace_classes"`
 	MaxThreads  int              `json:"max_threads"`
 	Unbounded   int              `json:"unbounded_scenarios"`
+	DefaultOnly int              `json:"default_schedule_only_scenarios"`
 	MinBound    int              `json:"min_bound_completed"`
 	Capped      []string         `json:"capped"`
 	Ends        map[string]int64 `json:"ends"`
@@ -80,6 +81,10 @@ func tier() string { return ev.Tier(os.Getenv("MC_TIER")) }
 func Run(p *Prop) {
 	if f := os.Getenv("MC_REPLAY"); f != "" {
 		os.Exit(replay(p, f))
+	}
+	if os.Getenv("MC_LIST") != "" {
+		fmt.Println(len(filter(p.Scenarios(tier()))))
+		return
 	}
 	if sh := os.Getenv("MC_SHARD"); sh != "" {
 		worker(p, sh)
@@ -135,7 +140,9 @@ func worker(p *Prop, shard string) {
 		for e, v := range st.Ends {
 			out.Ends[e] += v
 		}
-		if st.Unbounded {
+		if sc.DefaultOnly {
+			out.DefaultOnly++
+		} else if st.Unbounded {
 			out.Unbounded++
 		} else if st.BoundCompleted < out.MinBound {
 			out.MinBound = st.BoundCompleted
@@ -161,7 +168,34 @@ func coordinate(p *Prop) int {
 	if p.Pre != nil {
 		p.Pre(r)
 	}
-	scs := filter(p.Scenarios(t))
+	// one or several harness binaries contribute scenarios to this property
+	bins := []string{os.Args[0]}
+	if b := os.Getenv("MC_BINS"); b != "" {
+		bins = strings.Split(b, ",")
+	}
+	type item struct {
+		bin string
+		idx int
+	}
+	var scs []item
+	for _, bin := range bins {
+		cnt := 0
+		if bin == os.Args[0] {
+			cnt = len(filter(p.Scenarios(t)))
+		} else {
+			cmd := exec.Command(bin)
+			cmd.Env = append(os.Environ(), "MC_LIST=1", "MC_TIER="+t)
+			out, err := cmd.Output()
+			if err != nil {
+				fmt.Fprintf(os.Stderr, "MACHINERY FAILURE: cannot list scenarios of %s: %v\n", bin, err)
+				return 2
+			}
+			fmt.Sscanf(strings.TrimSpace(string(out)), "%d", &cnt)
+		}
+		for i := 0; i < cnt; i++ {
+			scs = append(scs, item{bin, i})
+		}
+	}
 	n := runtime.NumCPU()
 	if w, err := strconv.Atoi(os.Getenv("MC_WORKERS")); err == nil && w > 0 {
 		n = w
@@ -185,10 +219,11 @@ func coordinate(p *Prop) int {
 	var batches [][]int
 	for i := 0; i < len(scs); i += batch {
 		var b []int
-		for j := i; j < i+batch && j < len(scs); j++ {
+		for j := i; j < i+batch && j < len(scs) && scs[j].bin == scs[i].bin; j++ {
 			b = append(b, j)
 		}
 		batches = append(batches, b)
+		i += len(b) - batch
 	}
 	parts := make([]partial, len(batches))
 	errs := make([]string, len(batches))
@@ -222,9 +257,9 @@ func coordinate(p *Prop) int {
 				}
 				var idx []string
 				for _, i := range batches[bi] {
-					idx = append(idx, strconv.Itoa(i))
+					idx = append(idx, strconv.Itoa(scs[i].idx))
 				}
-				cmd := exec.Command(os.Args[0])
+				cmd := exec.Command(scs[batches[bi][0]].bin)
 				cmd.Env = append(os.Environ(), "MC_SHARD="+strings.Join(idx, ","), "MC_TIER="+t,
 					fmt.Sprintf("MC_BUDGET_S=%f", share), "GOMAXPROCS=1", "GOMEMLIMIT=6GiB")
 				cmd.Stderr = os.Stderr
@@ -257,6 +292,7 @@ func coordinate(p *Prop) int {
 		total.Steps += q.Steps
 		total.TraceClass += q.TraceClass
 		total.Unbounded += q.Unbounded
+		total.DefaultOnly += q.DefaultOnly
 		if q.MaxThreads > total.MaxThreads {
 			total.MaxThreads = q.MaxThreads
 		}
@@ -307,6 +343,7 @@ func coordinate(p *Prop) int {
 	r.Extra["mc_max_threads"] = total.MaxThreads
 	r.Extra["mc_scenarios_with_all_interleavings_explored"] = total.Unbounded
 	r.Extra["mc_min_deviation_bound_completed_in_other_scenarios"] = total.MinBound
+	r.Extra["mc_input_dimension_scenarios_run_under_default_schedule_only"] = total.DefaultOnly
 	r.Extra["mc_end_states"] = total.Ends
 	r.Extra["mc_outcome_counts"] = total.Outcomes
 	if len(total.PerScenario) > 40 {
@@ -318,7 +355,7 @@ func coordinate(p *Prop) int {
 			r.Sample(s)
 		}
 	}
-	if total.Unbounded < total.Scenarios {
+	if total.Unbounded+total.DefaultOnly < total.Scenarios {
 		// bounded, not exhaustive, for the remaining scenarios
 		r.Exhaustive = false
 	}
